@@ -49,6 +49,14 @@ def gen_diff(rng, which):
                 prog[opt] = prog['batch_timeout'] * 2 if prog['batch_timeout'] != 0.05 else 0.125
         elif not prog['retention_timeout']:
             prog['retention_timeout'] = rng.choice([0.0, 0.125, 4.0])
+        if rng.random() < 0.35:
+            # the configured decorator object is applied to a second function as well (direct forms: same option values)
+            t2, by = 0.0, []
+            for j in range(rng.randint(1, 3)):
+                t2 += _w(rng, [(0.0, 3), (Q, 3), (8 * Q, 2)])
+                by.append({"at": t2, "key": f"k{rng.randrange(4)}"})
+            prog['bystander'] = by
+            prog['by_same_opts'] = True
         return {'world': 'deco', 'part': 'diff', 'which': 'batcher', 'forms': ['class', 'func', 'deco'], 'base': prog}
     if which == 'buffer':
         prog = fw.gen_program(rng, 'c08-nofail' if rng.random() < 0.5 else 'c08')
@@ -60,6 +68,14 @@ def gen_diff(rng, which):
         prog['T'] = rng.choice([0.0, 0.125, 0.25, 1.0, 2.0])       # 0 is a legal, falsy option value
         prog.pop('runner', None)            # single-threaded only: the schedule must have no choice in it
         prog['foreign'] = []
+        if rng.random() < 0.35:
+            t2, by = 0.0, []
+            for j in range(rng.randint(1, 3)):
+                t2 += _w(rng, [(0.0, 3), (Q, 3), (8 * Q, 2)])
+                by.append({'at': t2, 'elem': 1000 + j})
+            prog['bystander'] = {'T': prog['T'], 'ops': by, 'same_opts': True}
+        elif prog.get('bystander'):
+            prog['bystander'].pop('same_opts', None)
         return {'world': 'deco', 'part': 'diff', 'which': 'buffer', 'forms': ['direct', 'deco'], 'base': prog}
     # cache: one loop, a few timed callers
     n = rng.randint(1, 6)
@@ -67,11 +83,11 @@ def gen_diff(rng, which):
     t = 0.0
     for _ in range(n):
         t += _w(rng, [(0.0, 4), (Q, 3), (8 * Q, 2), (1.0, 1)])
-        calls.append({'at': t, 'key': rng.randrange(3)})
+        calls.append({'at': t, 'key': rng.randrange(3), 'fn': 1 if rng.random() < 0.3 else 0})
     return {'world': 'deco', 'part': 'diff', 'which': 'cache', 'forms': ['direct', 'deco'],
             'base': {'calls': calls, 'durs': [_w(rng, [(0.0, 2), (Q, 3), (16 * Q, 2)]) for _ in range(4)],
                      'fail': [rng.random() < 0.2 for _ in range(4)],
-                     'cache': _w(rng, [('map', 5), ('dict', 3), ('lru', 2)])}}
+                     'cache': _w(rng, [('map', 5), ('dict', 3), ('lru', 2), ('none', 4)])}}
 
 
 def run_cache_form(base, form):
@@ -94,28 +110,38 @@ def run_cache_form(base, form):
             m = tracedmap.RetainingMap()
         elif base['cache'] == 'dict':
             m = {}
+        elif base['cache'] == 'none':
+            m = None                    # the option left at its default: every wrapped function gets a private dict
         else:
             from lru import LRU
             m = LRU(2)
         state['m'] = m
 
-        async def func(k):
+        async def body(fn, k):
             i = len(trace['invocations'])
-            trace['invocations'].append([i, k, sch.clock])
+            trace['invocations'].append([i, fn, k, sch.clock])
             d = base['durs'][i % 4]
             if d:
                 await asyncio.sleep(d)
             if base['fail'][i % 4]:
                 raise bw.BatchError(i)
-            return ['v', k, i]
+            return ['v', fn, k, i]
+
+        async def func(k):
+            return await body(0, k)
+
+        async def func1(k):
+            return await body(1, k)
+        # two functions: wrapped directly with the same option value, or by ONE configured decorator object
         if form == 'direct':
-            f = aa.threadsafe_async_cache(func, cache=m)
+            f = [aa.threadsafe_async_cache(func, cache=m), aa.threadsafe_async_cache(func1, cache=m)]
         else:
-            f = aa.threadsafe_async_cache(cache=m)(func)
+            deco = aa.threadsafe_async_cache(cache=m)
+            f = [deco(func), deco(func1)]
 
         async def caller(j, c):
             try:
-                r = await f(c['key'])
+                r = await f[c.get('fn', 0)](c['key'])
                 trace['calls'].append([j, 'value', repr(r), sch.clock])
             except Exception as e:  # noqa
                 trace['calls'].append([j, 'exc', repr(e), sch.clock])
@@ -125,7 +151,7 @@ def run_cache_form(base, form):
                 await asyncio.sleep(c['at'] - loop_time())
             tasks.append(asyncio.get_running_loop().create_task(caller(j, c)))
         await asyncio.gather(*tasks)
-        trace['store'] = sorted((repr(k), repr(v)) for k, v in m.items())
+        trace['store'] = sorted((repr(k), repr(v)) for k, v in m.items()) if m is not None else None
 
     def loop_time():
         return sch.clock
